@@ -234,6 +234,7 @@ class C16(Check):
     def gen_cases(self, tier: str, seed: int):
         yield {"variant": "a"}
         yield {"variant": "b"}
+        yield {"variant": "bigmeta"}     # metadata files larger than 4 MiB
         # an fsync that fails (nothing flushed) on each kind of file during a commit
         for kind in ("metadata", "manifest", "manifest_list", "data", "hint", "marker",
                      "dir_metadata", "dir_manifests", "dir_data", "dir_inflight"):
@@ -257,7 +258,7 @@ class C16(Check):
             root = os.path.realpath(str(d)) + "/t"
             log = str(d / "trace.txt")
             p = strace.run([sys.executable, "-m", "vf.procs.durability_ops", root, case["variant"]], log,
-                           cwd=str(VERIF), strsize=2000000, env=dict(os.environ, PYTHONHASHSEED="0"))
+                           cwd=str(VERIF), strsize=(12000000 if case["variant"] == "bigmeta" else 2000000), env=dict(os.environ, PYTHONHASHSEED="0"))
             if p.returncode != 0:
                 res.inconclusive.append(f"traced child failed: {p.stderr.decode(errors='replace')[-400:]}")
                 return
